@@ -22,7 +22,7 @@ import (
 
 type C10Call struct {
 	N    int `json:"n"`
-	Mode int `json:"mode"` // 0 in place, 1 disjoint dst of equal length, 2 dst longer than src
+	Mode int `json:"mode"` // 0 in place, 1 disjoint dst of equal length, 2 dst longer than src, 3 dst much longer
 }
 
 type C10Case struct {
@@ -90,6 +90,11 @@ func c10Check(c C10Case) *pbt.Violation {
 				dst = src
 			case 1:
 				dst = make([]byte, cl.N)
+			case 3:
+				dst = make([]byte, cl.N+40+ci%17) // much longer than src (a length test on dst instead of src shows)
+				for i := range dst {
+					dst[i] = 0xEE
+				}
 			default:
 				dst = make([]byte, cl.N+1+ci%17)
 				for i := range dst {
@@ -103,7 +108,7 @@ func c10Check(c C10Case) *pbt.Violation {
 			if cl.Mode != 0 && !bytes.Equal(src, srcCopy) {
 				return pbt.V("c10.src-modified", "src is only read", "call #%d (n=%d mode=%d) modified src", ci, cl.N, cl.Mode)
 			}
-			if cl.Mode == 2 {
+			if cl.Mode >= 2 {
 				for i := cl.N; i < len(dst); i++ {
 					if dst[i] != 0xEE {
 						return pbt.V("c10.dst-overrun", "only len(src) bytes of dst are written", "call #%d (n=%d) wrote beyond len(src) at dst[%d]", ci, cl.N, i)
@@ -173,7 +178,7 @@ func genC10(t *rapid.T) C10Case {
 		if rapid.IntRange(0, 3).Draw(t, "lencls") == 2 {
 			l = rapid.IntRange(0, 200).Draw(t, "lenu")
 		}
-		c.Calls = append(c.Calls, C10Call{N: l, Mode: rapid.IntRange(0, 2).Draw(t, "mode")})
+		c.Calls = append(c.Calls, C10Call{N: l, Mode: rapid.IntRange(0, 3).Draw(t, "mode")})
 		total += l
 	}
 	c.Inverse = rapid.SliceOfN(rapid.SampledFrom(c10Lens[1:]), 0, 5).Draw(t, "inverse")
